@@ -482,6 +482,10 @@ func execQone(w []string) string {
 	case "scancas":
 		applied, err := q.ScanCAS(ds...)
 		return fmt.Sprintf("ok applied:%v rows:[%s] end:%s", applied, fmtCalls(lg), dumpQErr(err))
+	case "mapscan":
+		m := map[string]interface{}{}
+		err := q.MapScan(m)
+		return fmt.Sprintf("ok map:%s end:%s", dumpTextMap(m), dumpQErr(err))
 	case "mapscancas":
 		m := map[string]interface{}{}
 		applied, err := q.MapScanCAS(m)
@@ -504,12 +508,30 @@ func execQone(w []string) string {
 	return "bad-op"
 }
 
+func dumpTextMap(m map[string]interface{}) string {
+	keys := make([]string, 0, len(m))
+	for k, v := range m {
+		var d string
+		switch x := v.(type) {
+		case []byte:
+			d = vh.Hex(x)
+		case string:
+			d = vh.Hex([]byte(x))
+		default:
+			d = fmt.Sprintf("?%T", v)
+		}
+		keys = append(keys, vh.Hex([]byte(k))+"="+d)
+	}
+	sort.Strings(keys)
+	return "{" + strings.Join(keys, ",") + "}"
+}
+
 var textIDs = []int{idBlob, idAscii, idText, idVarchar}
 
 func (x *runner) qoneOps(v int, reps int) {
 	g := x.g
 	for i := 0; i < reps; i++ {
-		api := []string{"scan", "scancas", "mapscancas"}[g.r.Intn(3)]
+		api := []string{"scan", "scancas", "mapscancas", "mapscan"}[g.r.Intn(4)]
 		class := fmt.Sprintf("qone/%s", api)
 		var b *body
 		nd := 0
@@ -543,9 +565,11 @@ func (x *runner) qoneOps(v int, reps int) {
 				} else {
 					class += "/first-column-any"
 				}
-			case "mapscancas":
+			case "mapscancas", "mapscan":
 				m = &meta{mode: 'G', ks: g.name(), tb: g.name()}
-				m.cols = append(m.cols, colSpec{name: []byte("[applied]"), t: nat(idBoolean)})
+				if api == "mapscancas" {
+					m.cols = append(m.cols, colSpec{name: []byte("[applied]"), t: nat(idBoolean)})
+				}
 				for j, n := 0, g.r.Intn(4); j < n; j++ {
 					m.cols = append(m.cols, colSpec{name: []byte(fmt.Sprintf("c%d", j)), t: nat(textIDs[g.r.Intn(4)])})
 				}
@@ -554,7 +578,7 @@ func (x *runner) qoneOps(v int, reps int) {
 			for len(rows) == 0 && g.r.Intn(5) != 0 {
 				rows = g.rowsFor(m, 3)
 			}
-			if api != "scan" {
+			if api == "scancas" || api == "mapscancas" {
 				for _, r := range rows {
 					if len(r) > 0 && len(m.cols) > 0 && string(m.cols[0].name) == "[applied]" {
 						switch g.r.Intn(6) {
@@ -575,7 +599,7 @@ func (x *runner) qoneOps(v int, reps int) {
 			if api == "scancas" && nd > 0 {
 				nd--
 			}
-			if api == "mapscancas" {
+			if api == "mapscancas" || api == "mapscan" {
 				nd = 0
 			} else if g.r.Intn(8) == 0 {
 				nd += 1 - 2*g.r.Intn(2)
